@@ -463,3 +463,14 @@ PROPS['C18'] = dict(
                 'code writes hidden text into the frame - sentinel search in the TestBackend cells over the view matrix listed in `rule`.',
     assumptions=['the destination (target) address in the header is not covered by the privacy setting (listed known finding when the target hop itself is within n)'],
 )
+
+
+# ---- C03: the trace identifiers of the tracers of one process (trippy-tui app.rs) join the strategy-level modes
+_c03 = PROPS['C03']
+PROPS['C03'] = dict(
+    _c03, crates=['hcore', 'htui'], modes=_c03['modes'] + [('htui', 'c03ids')],
+    compare=lambda inp, a, b: (a == b) if inp.startswith('tids ') else _c03['compare'](inp, a, b),
+    nontrivial=lambda inp, o: (o != 'fault:panic') if inp.startswith('tids ') else _c03['nontrivial'](inp, o),
+    rule=_c03['rule'] + ' || trace identifiers of a multi-target run: the real assignment of start_tracers (hook) for EVERY process id 0..65535 at target indices '
+         '{0..7, 15, 16, 255, 256, 1000, 32767, 65533, 65534}; oracle: no panic, no identifier zero, pairwise distinct; compared with Tui/TraceId.v',
+)
